@@ -288,6 +288,16 @@ pub fn run(cx: &mut Ctx) {
             check_civil(cx, Civ::from_ns(max - sec * NS - 999_999_999), o);
         }
     }
+    // civil datetimes that map exactly onto, and 1 ns beyond, both instant limits
+    if cx.shard == 0 {
+        for o in -93599..=93599i32 {
+            for d in [-2i128, -1, 0, 1, 2] {
+                for lim in [MIN_NS, MAX_NS] {
+                    check_civil(cx, Civ::from_ns(lim + d + o as i128 * NS), o);
+                }
+            }
+        }
+    }
     let nc = cx.budget(300_000, 6_000_000);
     for _ in 0..nc {
         let c = Civ::from_ns(r.range128(min, max));
